@@ -623,3 +623,75 @@ def graft(ctx, rec):
           ctx.violate('graft_dir', mk, 'direction_not_preconditioned_grad',
                       tick=t, leaf=i, angle=dirn, tol=told)
   ctx.state('graft', mk, gt, int(t >= S), int(dec), rec['opkind'])
+
+
+# ------------------------------------------- C01 reached statistics in float64
+_ROOT64_CACHE = {}
+
+
+def roots64(ctx, rec, max_per_run=3):
+  """The statistics reached by the simulated run are handed (as float64) to
+  the very routine the optimizer calls; the float64 result is checked with the
+  residual oracle at float64 resolution. Needs jax_enable_x64; sampled."""
+  import jax
+  import jax.numpy as jnp
+  from precondition import distributed_shampoo as dsm
+  w, view = rec['world'], rec['view']
+  cfg, t = w.cfg, rec['t']
+  if not w.plan.get('x64', True):
+    return
+  pt, dc = ref.precond_tick(cfg, w.lr_spec, t)
+  if not pt or dc:
+    return
+  method = _method(cfg)
+  if method in ('lowrank',):
+    return
+  done = ctx.__dict__.setdefault('_roots64_done', 0)
+  if done >= max_per_run:
+    return
+  eps = float(cfg.get('matrix_epsilon', 1e-6))
+  rel = bool(cfg.get('relative_matrix_epsilon', True))
+  eigh = bool(cfg.get('eigh', False))
+  lob = int(cfg.get('lobpcg_topk_precondition', 0))
+  mk = _modekey(rec) + '_f64'
+  for i, leaf in enumerate(view.layout['leaves']):
+    if i in rec['poisoned']:
+      continue
+    p = leaf['exponent']
+    for j, (_, _, d) in enumerate(leaf['stats']):
+      if ctx._roots64_done >= max_per_run:
+        return
+      if d < 2 or (lob and d <= 5 * lob):
+        continue
+      S = view.stat(rec['new'], i, j)
+      if not np.all(np.isfinite(S)):
+        continue
+      key = (d, eigh, eps, rel, lob)
+      fn = _ROOT64_CACHE.get(key)
+      if fn is None:
+        fn = jax.jit(lambda m, pp: dsm.matrix_inverse_pth_root(
+            m, pp, ridge_epsilon=eps, relative_matrix_epsilon=rel,
+            lobpcg_topk_precondition=lob, eigh=eigh))
+        _ROOT64_CACHE[key] = fn
+      X, met = fn(jnp.asarray(S, jnp.float64), jnp.asarray(p, jnp.int32))
+      X = np.asarray(X, np.float64)
+      err = float(met.inverse_pth_root_errors)
+      ctx._roots64_done += 1
+      ctx.probe('root64_called')
+      if not (np.isfinite(err) and err < float(cfg.get(
+          'inverse_failure_threshold', 0.1))):
+        ctx.ev('root64_residual', 'vacuous')
+        continue
+      lam = retries = None
+      meth = 'eigh' if eigh else 'newton'
+      if not eigh:
+        lam = float(met.max_eigen_value)
+        retries = None if lob else float(met.total_retries)
+      status, ratio, detail = root_oracle.check_root(
+          S, X, p, err, eps, rel, meth, lam, retries, u=2.0 ** -53,
+          k=2000.0, lam_window=2.0 ** -22)
+      ctx.ev('root64_residual', status, ratio)
+      if status == 'violation':
+        ctx.violate('root_residual', mk + '_' + method,
+                    'reached_statistic_in_float64', tick=t, leaf=i, stat=j, p=p,
+                    n=d, detail=detail)
